@@ -85,6 +85,9 @@ def cases(tier, seed):
     for kind in ('span_method', 'capture_method', 'span_and_capture', 'span_line'):
         out.append({'k': 'shutdown-pending', 'kind': kind})
         out.append({'k': 'shutdown-pending', 'kind': kind, 'how': 'installed'})
+    for which in ('pending', 'fresh'):
+        for by in ('same-thread', 'other-thread'):
+            out.append({'k': 'takeover', 'which': which, 'by': by})
     for kind in ('span_method', 'capture_method', 'span_and_capture'):
         for fc in ('-1', '1'):      # 1: the only fire is spent by the first thread - the later thread opens nothing, and has nothing to complete
             out.append({'k': 'abandoned', 'kind': kind, 'fc': fc})
@@ -281,6 +284,109 @@ def shutdown_pending(ctx, desc):
         ctx.violation(f'C15/shutdown-pending/left-in-store/{kind}', f'{label}: the pending store still holds {store} after the thread\'s work ended', desc)
 
 
+TAKEOVER_SRC = '''
+def helper(n):
+    return n * 2
+def job(hook):
+    a = 1
+    hook()
+    x = helper(21)
+    y = x + a
+    return y
+'''
+
+
+def takeover(ctx, desc):
+    """While job() runs, the agent is shut down and a NEW agent started (and configured). (1) pending: the first agent had a span / a
+    deferred snapshot open on job(): it is still completed when job() returns, by the first agent. (2) fresh: the new agent has a line span
+    and a line capture on the line after the hook: what it opens there it completes - also when that line makes a call."""
+    from deep.api.tracepoint.trigger import build_trigger, Trigger, LineLocation, Location, LocationAction
+    which = desc['which']
+    ns, path = rig.load_program('c15take', TAKEOVER_SRC)
+    j1, j2 = rig.Journal(), rig.Journal()
+    sp1, sp2 = rig.RecSpanProcessor(j1), rig.RecSpanProcessor(j2)
+    first = rig.Agent(plugins=[sp1], journal=j1)
+    line_x = TAKEOVER_SRC.split('\n').index('    x = helper(21)') + 1
+    if which == 'pending':
+        first.install(triggers_for('c15take', 'span_and_capture', 'job', '-1'))
+    else:
+        # (something for the first agent to follow the frames with)
+        first.install([build_trigger('t0', 'c15take.py', 3, {'fire_count': '-1', 'fire_period': '0', 'snapshot': 'no_collect', 'log_msg': 'h'}, [], [])])
+    second = {}
+
+    ready, gate = threading.Event(), threading.Lock()
+    gate.acquire()
+
+    def hook():
+        if desc.get('by') == 'other-thread':
+            # the worker blocks in C code (no trace events) while another thread replaces the agent
+            ready.set()
+            gate.acquire()
+        else:
+            replace()
+
+    def replacer():
+        ready.wait(20)
+        try:
+            replace()
+        finally:
+            gate.release()
+
+    def replace():
+        first.handler.shutdown()
+        a2 = second['agent'] = rig.Agent(plugins=[sp2], journal=j2)
+        a2.handler.start()
+        if which == 'pending':
+            a2.install([build_trigger('t2', 'c15take.py', 3, {'fire_count': '-1', 'fire_period': '0', 'snapshot': 'no_collect', 'log_msg': 'h'}, [], [])])
+        else:
+            cfg = {'watches': [], 'frame_type': 'no_frame', 'fire_count': '-1', 'fire_period': '0', 'stage': 'line_capture'}
+            a2.install([build_trigger('t2', 'c15take.py', line_x, {'fire_count': '-1', 'fire_period': '0', 'span': 'line', 'snapshot': 'no_collect'}, [], []),
+                        Trigger(LineLocation('c15take.py', line_x, Location.Position.CAPTURE), [LocationAction('t3', None, cfg, LocationAction.ActionType.Snapshot)])])
+    saved = (sys.gettrace(), threading.gettrace())
+    result = {}
+
+    def body():
+        if desc.get('by') != 'other-thread':
+            first.handler.start()
+        try:
+            result['v'] = ns['job'](hook)
+        except BaseException as e:
+            result['exc'] = e
+        finally:
+            if 'agent' in second:
+                second['agent'].handler.shutdown()
+            sys.settrace(None)
+    try:
+        with rig.VirtualClock():
+            if desc.get('by') == 'other-thread':
+                first.handler.start()          # (this thread starts the agent; the worker gets it through the threading hook)
+                sys.settrace(None)             # (... and does not want to be traced itself)
+            t = threading.Thread(target=body, name='host-takeover')
+            t.start()
+            if desc.get('by') == 'other-thread':
+                threading.settrace(None)
+                r = threading.Thread(target=replacer, name='host-replacer')
+                r.start()
+                r.join(20)
+            t.join(20)
+    finally:
+        sys.settrace(saved[0])
+        threading.settrace(saved[1])
+    ctx.case()
+    ctx.nt(('takeover', which, desc.get('by')))
+    a2 = second.get('agent')
+    label = f'agent replaced while job() runs ({which}, by the {desc.get("by")})'
+    ctx.outcome(('takeover', which, tuple(s_.closed for s_ in sp1.spans), tuple(s_.closed for s_ in sp2.spans), len(first.snapshots), len(a2.snapshots) if a2 else None))
+    if result.get('v') != 43 or 'exc' in result:
+        ctx.violation('C15/takeover/program-disturbed', f'{label}: {result}', desc)
+    elif which == 'pending' and ([s_.closed for s_ in sp1.spans] != [1, 1] or len(first.snapshots) != 1):
+        ctx.violation('C15/takeover/pending-work-of-the-stopped-agent-abandoned', f'{label}: the spans the first agent had opened on job() have close counts '
+                      f'{[s_.closed for s_ in sp1.spans]}, its deferred snapshot was delivered {len(first.snapshots)} times', desc)
+    elif which == 'fresh' and ([s_.closed for s_ in sp2.spans] != [1] or len(a2.snapshots) != 1):
+        ctx.violation('C15/takeover/work-opened-in-a-taken-over-frame-not-completed', f'{label}: the new agent opened {len(sp2.spans)} span(s) on the line that calls helper(), close counts '
+                      f'{[s_.closed for s_ in sp2.spans]}; its line capture was delivered {len(a2.snapshots)} times', desc)
+
+
 ABANDON_SRC = '''
 import sys
 def job(n, drop):
@@ -360,6 +466,8 @@ def run_case(ctx, desc):
         return shutdown_pending(ctx, desc)
     if desc['k'] == 'abandoned':
         return abandoned(ctx, desc)
+    if desc['k'] == 'takeover':
+        return takeover(ctx, desc)
     if desc['k'] == 'seq':
         return seq(ctx, desc)
     if desc['k'] == 'reuse':
